@@ -149,7 +149,13 @@ impl Cell for str {
             }
             // Don't add the delimiter if we just trimmed whitespace.
             if self[boundary..].trim().is_empty() {
-                self[..boundary + 1].to_owned()
+                // Keep the first trimmed whitespace grapheme, but only if it fits.
+                if let Some(g) = self[boundary..].graphemes(true).next() {
+                    if cols + Cell::width(g) <= width {
+                        boundary += g.len();
+                    }
+                }
+                self[..boundary].to_owned()
             } else {
                 format!("{}{delim}", &self[..boundary])
             }
